@@ -10,11 +10,16 @@ def read_lines(docs, opt=0):
 # protocol lines the harness could not serve because the static helper they call no longer exists in the source
 # (renamed, inlined, new signature): configuration -> count.  Such lines are treated as not run.
 UNSUPPORTED = {}
+# every crash of the harness seen by this process: (configuration, mode, style, line, return code, stderr tail).  Checks report
+# crashes themselves; props/util.finish_proof reports any crash no check reported, so that none is ever dropped silently.
+CRASHES = []
 
 
 def run_impl(cfg, lines, mode="san", style="unity", prefix=None, nchunks=16, **kw):
     exe = C.harness(style, cfg, mode)
     outs, crashes = C.run_parallel(exe, lines, nchunks=nchunks, prefix=prefix or [], **kw)
+    for idx, rc, err in crashes:
+        CRASHES.append((cfg, mode, style, (prefix or []) + [lines[idx]] if 0 <= idx < len(lines) else [], rc, (err or "")[-2500:]))
     for i, o in enumerate(outs):
         if o == "unsupported":
             outs[i] = None
